@@ -373,7 +373,16 @@ M('C11', 'builder-patch-without-guard', DF, '    def patch(self, key, diff):\n  
   '    def patch(self, key, diff):\n        self.append(op_patch(key, diff))\n\n    def addrange', 'R11.2')
 M('C11', 'push-patch-wraps-empty', DEC, '        dec.local_diff = [op_patch(key, dec.local_diff)] if dec.local_diff else []', '        dec.local_diff = [op_patch(key, dec.local_diff)]', 'R11.2')
 M('C11', 'recursion-into-atomic', GEN, '            if not config.is_atomic(aval, subpath):\n                cd = diffit', '            if True:\n                cd = diffit', 'R11.3')
-M('C11', 'dict-recursion-ignores-type', GEN, '        if type(avalue) is type(bvalue) and not config.is_atomic(avalue, path=subpath):', '        if not config.is_atomic(avalue, path=subpath):', 'R11.3')
+M('C11', 'dict-recursion-ignores-type', GEN, '        if type(avalue) is type(bvalue) and (\n                subpath in config.differs or\n                not config.is_atomic(avalue, path=subpath)):',
+  '        if (subpath in config.differs or\n                not config.is_atomic(avalue, path=subpath)):', 'R11.3')
+M('C11', 'dict-recursion-into-any-atomic', GEN, '                subpath in config.differs or\n                not config.is_atomic(avalue, path=subpath)):',
+  '                subpath in config.differs or\n                config.is_atomic(avalue, path=subpath)):', 'R11.3')
+M('C14', 'ignore-not-consulted-for-atomic-paths', GEN, '        if type(avalue) is type(bvalue) and (\n                subpath in config.differs or\n                not config.is_atomic(avalue, path=subpath)):',
+  '        if type(avalue) is type(bvalue) and not config.is_atomic(avalue, path=subpath):', 'R14.5')
+M('C14', 'source-made-atomic', NBD, '        "/cells/*/id": True\n', '        "/cells/*/id": True,\n        "/cells/*/source": True,\n', 'R14.5', count=1,
+  edits=[(GEN, '                subpath in config.differs or\n', '')])
+T('C14', 'twin-explicit-differ-test-hoisted', GEN, '        if type(avalue) is type(bvalue) and (\n                subpath in config.differs or\n                not config.is_atomic(avalue, path=subpath)):',
+  '        configured = subpath in config.differs\n        if type(avalue) is type(bvalue) and (\n                configured or\n                not config.is_atomic(avalue, path=subpath)):')
 M('C11', 'is-atomic-treats-str-atomic', 'nbdime/diffing/config.py', 'return not isinstance(x, (str, list, dict))', 'return not isinstance(x, (list, dict))', 'R11.3')
 M('C11', 'output-differ-patches-other-key', NBD, '            di.patch("data", dd)', '            di.patch("metadata", dd)', 'R11.4')
 T('C11', 'twin-builder-temp', LCS, '    return di.validated()', '    result = di.validated()\n    return result')
